@@ -503,7 +503,9 @@ class Evaluator(object):
                         aggs[f] = (hx[1], self.agg_input(hx[1], hx[2], en))
                     else:
                         key.append((f, self.ev1(hx, en)))
-                gk = json.dumps([(str(f), canon_key(v)) for f, v in key],
+                # by field NAME: the bodies may list their named head arguments in any order
+                gk = json.dumps(sorted([(str(f), canon_key(v)) for f, v in key],
+                                       key=lambda kv: kv[0]),
                                 sort_keys=True, default=str)
                 g = groups.setdefault(gk, (key, {}))
                 for f, (op, v) in aggs.items():
